@@ -9,21 +9,57 @@ streams of `harness/lattices/rotatedtoric3dcode.py`.  Property theorems only; th
 `Proofs/LatRotatedToric3DCode*.lean`.
 
 Supported family (DESIGN.md section 4): `L_x, L_y ≥ 2`, `L_z ≥ 1`, not both `L_x` and `L_y` odd.
+For every size of the family: the coordinate system is well-formed (`wf`), any two stabilizer
+generators commute, the logical operators commute with the generators and satisfy the pairing
+table (`commPair`) — with two logical qubits when `L_x`, `L_y` are both even, one (with a logical Z
+made of Y letters along the defect line) when one of them is odd.  The proof goes through the
+observation that, whether or not a layer stabilizer sits on a defect line, it writes on a
+neighbouring qubit `q` the letter fixed by the colour of `q` and by the diagonal on which it sees
+`q` (`Proofs/LatRotatedToric3DCode3/4`): the swapped letters of the class on a defect line are
+exactly what the checkerboard on the other side of the seam asks for.
+
+Not proved here: the rank clause (`rank H = n - k`) for all sizes.  It is covered per instance by
+the kernel-checked tables of `Properties/C01.lean`.
 -/
-import PanqecVerif.Proofs.LatRotatedToric3DCode1
+import PanqecVerif.Proofs.LatRotatedToric3DCode9
 
 namespace Panqec.C01RotatedToric3DCode
 
 open Panqec Panqec.RotatedToric3DCode
 
-/-- The coordinate part of well-formedness, every size: qubit coordinates are distinct, stabilizer
-    coordinates are distinct, and no location is both (`_partial`: the operator clauses of
-    `Lattice.WF` — keys distinct, support on qubits, non-empty — are not proved here for all sizes;
-    they are covered per instance by the kernel-checked tables of `Properties/C01.lean`). -/
-theorem wf_coordinates_partial (Lx Ly Lz : Nat) :
-    (lattice Lx Ly Lz).qubits.Nodup ∧ (lattice Lx Ly Lz).stabs.Nodup ∧
-      ∀ q ∈ (lattice Lx Ly Lz).qubits, q ∉ (lattice Lx Ly Lz).stabs :=
-  ⟨qubits_nodup Lx Ly Lz, stabs_nodup Lx Ly Lz, fun _ hq => qubits_not_stabs hq⟩
+/-- Well-formedness for every size of the supported family: qubit / stabilizer coordinates are
+    distinct and disjoint, every `get_stabilizer(loc)` and every logical operator is a dict
+    (distinct keys: the neighbours after the seam rules are pairwise distinct from `L = 2` on)
+    supported on qubits with letters ≠ I, and no stabilizer is empty. -/
+theorem wf (Lx Ly Lz : Nat) (hx : 2 ≤ Lx) (hy : 2 ≤ Ly) (hodd : ¬ (Lx % 2 = 1 ∧ Ly % 2 = 1)) :
+    (lattice Lx Ly Lz).WF :=
+  RotatedToric3DCode.wf ⟨hx, hy, hodd⟩
+
+/-- The operator-level C01 clauses other than rank, for every size of the supported family: any
+    two stabilizer generators commute (also across the seams and on the defect lines of an odd
+    `Lx` / `Ly`, where generators carry both X and Z letters); every logical X and logical Z
+    commutes with every generator; there are as many logical Z as logical X operators (two for
+    even × even, one otherwise) and `X_i`, `Z_j` anticommute exactly for `i = j`; logical X's
+    (Z's) commute among themselves. -/
+theorem commPair (Lx Ly Lz : Nat) (hx : 2 ≤ Lx) (hy : 2 ≤ Ly) (hz : 1 ≤ Lz)
+    (hodd : ¬ (Lx % 2 = 1 ∧ Ly % 2 = 1)) : (lattice Lx Ly Lz).CommPair :=
+  RotatedToric3DCode.commPair ⟨hx, hy, hodd⟩ hz
+
+/-- The letter rule behind `commPair`, every size of the supported family: every generator is one
+    of four kinds (vertex, horizontal face, vertical face of either orientation); its operator is
+    carried by those of its 6 / 4 seam-wrapped neighbours that are qubits, and on a neighbour `q`
+    it writes Z when its sign for `q` (main diagonal / vertical: `true`, anti-diagonal: `false`;
+    reversed for the faces as listed in `KV`, `KH`, `KFX`, `KFY`) agrees with the colour of `q`, X
+    otherwise — on and off the defect lines alike. -/
+theorem stabilizer_letter_rule (Lx Ly Lz : Nat) (hx : 2 ≤ Lx) (hy : 2 ≤ Ly)
+    (hodd : ¬ (Lx % 2 = 1 ∧ Ly % 2 = 1)) {s : Coord} (hs : s ∈ (lattice Lx Ly Lz).stabs) :
+    ∃ K : List (Coord × Bool), Kind Lx Ly Lz s K ∧
+      ∃ g : Coord → Pauli,
+        (lattice Lx Ly Lz).getStab s =
+          gop ((K.map Prod.fst).filter (isQubit Lx Ly Lz)) g ∧
+        ∀ e ∈ K, g e.1 = dl e.2 e.1 := by
+  obtain ⟨K, hk⟩ := kind_of_mem hs
+  exact ⟨K, hk, (signed_of_kind ⟨hx, hy, hodd⟩ hk).eq⟩
 
 /-- `n = Lx·Ly·Lz` horizontal qubits plus `(Lz − 1)` layers of vertical qubits, one at each point of
     the checkerboard `{(i, j) : 1 ≤ i ≤ Lx, 1 ≤ j ≤ Ly, i + j odd}` (every size) -/
@@ -108,6 +144,11 @@ example : getStab? 3 2 2 [1, 1, 2] = none ∧ (getStab? 3 2 2 [3, 1, 2]).isSome 
 /-- odd × even: the single logical Z is a string of Y -/
 example : logZ 3 2 1 = [[([1, 1, 1], Pauli.Y), ([3, 1, 1], Pauli.Y), ([5, 1, 1], Pauli.Y)]] := by
   decide +kernel
+example : (lattice 3 2 2).WF := wf 3 2 2 (by decide) (by decide) (by decide)
+example : (lattice 3 4 2).CommPair := commPair 3 4 2 (by decide) (by decide) (by decide) (by decide)
+example : (lattice 4 6 3).CommPair := commPair 4 6 3 (by decide) (by decide) (by decide) (by decide)
+/-- odd × even: the logical X (a line of X) and the logical Z (a line of Y) anticommute -/
+example : opAntiCount ((logX 3 2 1).getD 0 []) ((logZ 3 2 1).getD 0 []) = 1 := by decide +kernel
 example : getDeformation 2 2 2 "XZZX" none [2, 4, 2] = some PauliMap.id := by decide +kernel
 example : getDeformation 2 2 2 "XZZX" (some "z") [2, 4, 2] = some PauliMap.swapXZ := by decide +kernel
 example : getDeformation 2 2 2 "XY" (some "x") [2, 4, 2] = none := by decide +kernel
